@@ -244,10 +244,16 @@ impl Env {
     }
 
     pub fn put(&self, k: i64, len: usize) -> bool {
+        self.put_opt(k, len, false)
+    }
+
+    /// put with `WriteOptions::synchronous` (a synchronous writer is never taken into the group
+    /// of a non-synchronous leader)
+    pub fn put_opt(&self, k: i64, len: usize, synchronous: bool) -> bool {
         let vid = self.fresh_vid();
         self.call("put", k, vec![[k, 1, vid]]);
         let r = self.db.put(
-            WriteOptions::default(),
+            WriteOptions { synchronous },
             self.u.key(k).clone(),
             Universe::make_value(vid, len, true),
         );
@@ -377,6 +383,7 @@ pub fn scenarios(rng: &mut StdRng, quick: bool) -> Vec<Scenario> {
         "readers",
         "queue_and_readers",
         "queue_big_follower",
+        "queue_sync_follower",
         "compact_while_parked",
         "queue_wal_fault",
     ] {
@@ -1183,6 +1190,27 @@ pub fn run_scenario(sc: &Scenario, seed: u64, run_no: u64) -> SchedOutcome {
                         }
                         1 => {
                             e3.put(4, 200_000);
+                        }
+                        _ => {
+                            e3.batch(&[5, 2], 30);
+                        }
+                    });
+                    ctl.wait_waiting(name, Duration::from_secs(3));
+                    helpers.push((name.to_string(), rx));
+                }
+            }
+            "queue_sync_follower" => {
+                // three writers queue behind the suspended (non-synchronous) leader; the second
+                // one writes synchronously, so the leader's group must stop before it; it then
+                // leads the next group itself (with the third writer in it)
+                for (i, name) in ["w1", "w2", "w3"].iter().enumerate() {
+                    let e3 = Arc::clone(&env);
+                    let rx = spawn_named(name, move || match i {
+                        0 => {
+                            e3.put(3, 40);
+                        }
+                        1 => {
+                            e3.put_opt(4, 40, true);
                         }
                         _ => {
                             e3.batch(&[5, 2], 30);
